@@ -1,14 +1,27 @@
-(* Property C09: VCD declarations appear in the hierarchy as declared.  Pinned: the bit-range packing
-   (var_index_roundtrip), the identifier-code arithmetic (id_to_int_injective) and the name clause
-   (parse_name_range / parse_name_single / parse_name_plain): a `$var` reference made of a base name, any number of
-   bracket groups and a final numeric group `[i]` or `[msb:lsb]` - negative bounds allowed, up to 18 digits, with or
-   without separating blanks - is split by the model of vcd.rs parse_name / extract_suffix_index into exactly that bit
-   range, the last array group as the variable's name and the base name followed by the other groups as array scopes
-   (NameProofs.name_result).  NOT proved: the command loop of the header reader (scope stack, keyword tables - those are
-   regenerated from the source by the translator -, attributes, $date/$version/$timescale); decided by the
-   correspondence run against the real header reader and the oracle computed from the declaration tree. *)
+(* Property C09: VCD declarations appear in the hierarchy as declared.
+   read_header_mdecls (Proofs/CmdProofs.v) is the statement for whole headers: a header made of $date / $version /
+   $comment / $timescale / $scope / $upscope / $var commands in any order - each written `$<keyword> <body> $end` with any
+   blank space around its parts; each of $date, $version, $timescale at most once; no $attrbegin - is read successfully;
+   the reported header length is the length of the commands up to and including `$enddefinitions $end`; date, version and
+   time scale are reported as written; and the calls made to the hierarchy builder are exactly those of the declarations,
+   in order (CmdProofs.decl_ops): a scope of the declared kind and name (an empty name is dissolved exactly when the option
+   is set: scope_cmd_empty), a variable of the declared kind, width (0 read as 1), bit range and name, array groups of a
+   reference opened and closed as array scopes around it (parse_name_range / parse_name_single / parse_name_plain,
+   var_index_roundtrip: negative bounds, with or without separating blanks), variables numbered by their identifier code
+   directly or - when the loader starts again with a map - by first appearance; two variables share a signal exactly when
+   they share an identifier code (decls_share for the map, id_to_int_injective for the direct numbering).  What tree the
+   builder makes of those calls - position, re-opened same-named sibling scopes, lookups - is property C08
+   (hierarchy_wellformed, hierarchy_walk, hierarchy_lookup).  The keyword tables are regenerated from the source by the
+   translator (Generated/Consts.v).
+   The steps: read_command_spec / read_command_empty / header_loop_spec (tokenizer and command loop), var_body_tokens,
+   scope_cmd_spec / var_cmd_spec / date, version, timescale lemmas (what one command does), handle_mdecls /
+   handle_mdecls_direct (all commands, with and without the identifier map).
+   NOT proved: $attrbegin (the GTKWave / nvc extensions: source locators, VHDL type names), when exactly
+   IdTracker::need_id_map asks for the map (either numbering satisfies the property), tabs inside a command body (the
+   tokenizer splits bodies at blanks only; the model does too).  Those are decided by the correspondence run against the
+   real header reader and the oracle computed from the declaration tree. *)
 From Coq Require Import ZArith List. Import ListNotations.
-From WV Require Import Model.Base Model.VcdBody Model.VcdHeader Proofs.HeaderProofs Proofs.NameProofs.
+From WV Require Import Model.Base Model.WaveMem Model.Hierarchy Model.VcdBody Model.VcdHeader Proofs.HeaderProofs Proofs.NameProofs Proofs.CmdProofs.
 Open Scope N_scope.
 
 (* [msb:lsb] with negative bounds survives the packed VarIndex representation *)
@@ -39,6 +52,104 @@ Check parse_name_single :
 Check parse_name_plain :
   forall b0 c, c <> 32 -> c <> 93 -> ~ In 91 (b0 ++ [c]) -> parse_name (b0 ++ [c]) = Ok (b0 ++ [c], None, []).
 
+
+Check read_command_spec :
+  forall pre0 kw cmd b pre c mid d sep rest,
+  wsp pre0 -> Forall (fun x => is_white_space x = false) kw -> lookup_bytes kw cmd_table = Some cmd ->
+  is_white_space b = true -> wsp pre -> is_white_space c = false -> is_white_space d = false -> no_dollar (c :: mid ++ [d]) -> wsp sep ->
+  read_command (pre0 ++ [36] ++ kw ++ [b] ++ pre ++ (c :: mid ++ [d]) ++ sep ++ [36; 101; 110; 100] ++ rest)
+  = Ok (cmd, c :: mid ++ [d], rest).
+
+Check read_command_empty :
+  forall pre0 kw cmd b pre rest,
+  wsp pre0 -> Forall (fun x => is_white_space x = false) kw -> lookup_bytes kw cmd_table = Some cmd ->
+  is_white_space b = true -> wsp pre ->
+  read_command (pre0 ++ [36] ++ kw ++ [b] ++ pre ++ [36; 101; 110; 100] ++ rest) = Ok (cmd, [], rest).
+
+Check var_body_tokens :
+  forall tpe size id r0 ref,
+  no_sp tpe -> tpe <> [] -> no_sp size -> size <> [] -> no_sp id -> id <> [] -> r0 <> 32 ->
+  let body := tpe ++ [32] ++ size ++ [32] ++ id ++ [32] ++ (r0 :: ref) in
+  exists more start,
+    find_tokens body = (0%nat, tpe) :: ((S (length tpe)), size) :: ((S (S (length tpe + length size))), id) :: (start, fst more) :: snd more /\
+    skipn start body = r0 :: ref.
+
+
+Check header_loop_spec :
+  forall flatten_empty use_id_map (cts : list (cmd_text * vcd_cmd)) cend rest fuel st,
+  Forall (fun p => ct_ok (fst p) (snd p) /\ snd p <> CEndDefs) cts -> ct_ok cend CEndDefs -> (length cts < fuel)%nat ->
+  header_loop fuel flatten_empty use_id_map (concat (map (fun p => ct_render (fst p)) cts) ++ ct_render cend ++ rest) st
+  = hdo st' <- handle_all flatten_empty use_id_map st (map (fun p => (snd p, ct_body (fst p))) cts); HOk (st', rest).
+
+
+
+Check read_header_mdecls :
+  forall flatten_empty (cts : list (cmd_text * vcd_cmd)) cend rest xs,
+  Forall (fun p => ct_ok (fst p) (snd p) /\ snd p <> CEndDefs) cts -> ct_ok cend CEndDefs ->
+  map (fun p => (snd p, ct_body (fst p))) cts = map mdecl_cmd xs -> metas_ok false false false xs ->
+  let input := concat (map (fun p => ct_render (fst p)) cts) ++ ct_render cend ++ rest in
+  exists hr, read_header flatten_empty input = Ok hr /\ hr_len hr = (length input - length rest)%nat /\
+    (hr_date hr, hr_version hr, hr_timescale hr) = meta_of xs [] [] None /\
+    ((hr_ops hr = direct_ops (decls_of xs) /\ hr_lookup hr = None) \/
+     (hr_ops hr = fst (decls_ops [] (decls_of xs)) /\ hr_lookup hr = Some (snd (decls_ops [] (decls_of xs))))).
+
+Check decls_share :
+  forall ds m, map_ok m -> map_inj m ->
+  let m' := snd (decls_ops m ds) in
+  map_ok m' /\ map_inj m' /\ (forall a x, map_get m a = Some x -> map_get m' a = Some x) /\
+  forall vn vt dir enc idx sref tn, In (HVar vn vt dir enc idx sref tn) (fst (decls_ops m ds)) ->
+    exists tpe size id r0 ref, In (DVar tpe size id r0 ref) ds /\ map_get m' id = Some sref.
+
+Check scope_cmd_empty :
+  forall flatten_empty use_id_map st kw t decl,
+  no_sp kw -> kw <> [] -> lookup_bytes kw scope_kw = Some t -> scope_attrs (hs_attrs st) None = Ok decl ->
+  handle_cmd flatten_empty use_id_map st CScope kw = HOk (with_ops st (HScope [] None t decl flatten_empty :: hs_ops st) []).
+
+(* the builder calls of one declaration *)
+Check (eq_refl : decl_ops = fun d sref =>
+  match d with
+  | DScope kw nm => match lookup_bytes kw scope_kw with Some t => [HScope nm None t None false] | None => [] end
+  | DUp => [HPop]
+  | DVar tpe size id r0 ref =>
+    match parse_name (r0 :: ref), lookup_bytes tpe var_kw, parse_uint size u32_max with
+    | Ok (vn, idx, scopes), Some raw, Some len =>
+      let enc := if raw =? 17 then EncString else if mem_byte raw real_types then EncReal
+                 else EncBits (if len =? 0 then 1%nat else N.to_nat len) in
+      map (fun s => HScope s None 23 None false) scopes ++ [HVar vn raw 0 enc idx sref None] ++ map (fun _ => HPop) scopes
+    | _, _, _ => []
+    end
+  end).
+
+Check header_decls :
+  forall flatten_empty (cts : list (cmd_text * vcd_cmd)) cend rest fuel st ds,
+  Forall (fun p => ct_ok (fst p) (snd p) /\ snd p <> CEndDefs) cts -> ct_ok cend CEndDefs -> (length cts < fuel)%nat ->
+  map (fun p => (snd p, ct_body (fst p))) cts = map decl_cmd ds -> Forall decl_ok ds -> hs_attrs st = [] ->
+  exists st',
+    header_loop fuel flatten_empty true (concat (map (fun p => ct_render (fst p)) cts) ++ ct_render cend ++ rest) st = HOk (st', rest) /\
+    hs_ops st' = rev (fst (decls_ops (hs_idmap st) ds)) ++ hs_ops st /\ hs_idmap st' = snd (decls_ops (hs_idmap st) ds).
+
+Check scope_cmd_spec :
+  forall flatten_empty use_id_map st kw nm t decl,
+  no_sp kw -> kw <> [] -> no_sp nm -> nm <> [] -> is_ascii nm = true ->
+  lookup_bytes kw scope_kw = Some t -> scope_attrs (hs_attrs st) None = Ok decl ->
+  handle_cmd flatten_empty use_id_map st CScope (kw ++ [32] ++ nm)
+  = HOk (with_ops st (HScope nm None t decl false :: hs_ops st) []).
+
+Check var_cmd_spec :
+  forall flatten_empty use_id_map st tpe size id r0 ref len raw vn idx scopes tn vt,
+  no_sp tpe -> tpe <> [] -> no_sp size -> size <> [] -> no_sp id -> id <> [] -> r0 <> 32 ->
+  is_ascii size = true -> parse_uint size u32_max = Some len -> parse_name (r0 :: ref) = Ok (vn, idx, scopes) ->
+  lookup_bytes tpe var_kw = Some raw -> var_attrs (hs_attrs st) raw None = Ok (tn, vt) -> is_ascii (r0 :: ref) = true ->
+  handle_cmd flatten_empty use_id_map st CVar (tpe ++ [32] ++ size ++ [32] ++ id ++ [32] ++ (r0 :: ref))
+  = (let enc := if raw =? 17 then EncString else if mem_byte raw real_types then EncReal
+                else EncBits (if len =? 0 then 1%nat else N.to_nat len) in
+     hdo '(st1, sref) <- id_to_signal_ref use_id_map
+                           (with_ops st (rev_append (map (fun s => HScope s None 23 None false) scopes) (hs_ops st)) []) id;
+     HOk (with_ops st1 (rev_append (map (fun _ => HPop) scopes) (HVar vn vt 0 enc idx sref tn :: hs_ops st1)) [])).
+
+Check (eq_refl : ct_render = fun c =>
+  ct_pre0 c ++ [36] ++ ct_kw c ++ [ct_b c] ++ ct_pre c ++ ct_body c ++ ct_sep c ++ [36; 101; 110; 100]).
+
 (* the vocabulary of the three statements *)
 Check (eq_refl : name_result = fun b0 c gs idx =>
   match rev gs with
@@ -55,3 +166,14 @@ Print Assumptions id_to_int_injective.
 Print Assumptions parse_name_range.
 Print Assumptions parse_name_single.
 Print Assumptions parse_name_plain.
+Print Assumptions read_command_spec.
+Print Assumptions read_command_empty.
+Print Assumptions var_body_tokens.
+Print Assumptions header_loop_spec.
+Print Assumptions header_decls.
+Print Assumptions read_header_mdecls.
+Print Assumptions decls_share.
+Print Assumptions scope_cmd_empty.
+Print Assumptions scope_cmd_spec.
+Print Assumptions var_cmd_spec.
+Check read_header_mdecls_example.
